@@ -13,7 +13,7 @@ PROP = {
     "allowed_axioms": [],
     "harness": "c15",
     "modelrun": {"name": "c15", "extracted": ["c15_model"], "driver": "ocaml/c15/c15_run.ml"},
-    "tiers": {"quick": {"cases": 6000}, "thorough": {"cases": 120000}},
+    "tiers": {"quick": {"cases": 6000}, "thorough": {"cases": 250000}},
     "search_cases": 40000,
     "rule": "pp: every (len_p, len_x) pair of both families x address pairs that differ in exactly one chosen bit "
             "(at, just below, just above the shorter length, at word boundaries, random), canonicalised or raw, plus random "
